@@ -322,6 +322,8 @@ def configs(k):
 def resolve(sym, e):
     if sym == '1':
         return 1
+    if sym == '0':
+        return 0  # a write of no bytes: nothing to send, nothing to wait for
     mul, _, add = sym.partition('E')
     n = (int(mul) if mul else 1) * e + (int(add) if add else 0)
     return max(n, 1)
@@ -453,6 +455,12 @@ def stream_cases(quick):
     for cfg in cfg0 + (cfg1[:6] if quick else cfg1):
         for a, b in big:
             cases.append((cfg, {'mode': 'burst', 'c': a, 's': b}))
+    # writes of no bytes among the others: the stream is unchanged and drain() still returns
+    zero = [(('0',), ()), ((), ('0',)), (('0',), ('0',)), (('0', 'E'), ('1',)), (('E+1', '0'), ('0', '3E')), (('0', '0'), ('E',))]
+    for cfg in cfg0 + (cfg1[:6] if quick else cfg1):
+        for a, b in zero:
+            for mode in ('burst', 'stepped'):
+                cases.append((cfg, {'mode': mode, 'c': a, 's': b}))
     if quick:
         for cfg in cfg0:
             for a, b in pairs2:
